@@ -101,6 +101,10 @@ def run_batch(lib, behs, wfd, tmo):
         shutil.rmtree(workdir, ignore_errors=True)
         if status != "ok":
             break      # library state may be off: the parent starts a fresh process for the rest
+    try:
+        lib.__gcov_dump()      # coverage build only (bin/coverage.sh): counters are not written at _exit
+    except Exception:
+        pass
     os._exit(0)
 
 
